@@ -331,10 +331,22 @@ def discharge(o, hyps, pool, budget_ms=20000):
         if r['proved']:
             return dict(status='proved', backend=r['method'], seconds=time.time() - t0,
                         witness=None, detail=f"{r['parts']} coefficient identities")
-        # nonzero residual although every sample agreed: find a point where it differs
+        if r['proved'] is None:
+            return dict(status='undecided', backend=r['method'], seconds=time.time() - t0, witness=None,
+                        detail='; '.join(f'{k}: {res}' for k, res in r['failed'][:3]))
+        # non-zero residual although every sample agreed in double precision: look
+        # for a point where the two sides differ in 60-digit arithmetic
+        detail = 'non-zero residual: ' + '; '.join(f'{k}: {res}' for k, res in r['failed'][:3])
+        for pt in pts:
+            try:
+                dlt = abs(pt.eval_mp(core.sub(o.lhs, o.rhs)))
+                if dlt > 1e-40 * max(pt.mag(o.lhs), pt.mag(o.rhs), 1e-300):
+                    return dict(status='refuted', backend=r['method'], seconds=time.time() - t0, witness=pt,
+                                detail=detail + f' ; |lhs-rhs| = {float(dlt):.3e} at a sample point (60 digits)')
+            except Exception:
+                continue
         return dict(status='refuted' if not pts else 'undecided', backend=r['method'],
-                    seconds=time.time() - t0, witness=None,
-                    detail='non-zero residual: ' + '; '.join(f'{k}: {res}' for k, res in r['failed'][:3]))
+                    seconds=time.time() - t0, witness=None, detail=detail)
     if o.kind == 'holds':
         goal = o.lhs
     else:
